@@ -170,23 +170,36 @@ def body_wiring(paste, compensated, interlaced, second, poles, nmesh):
     painted = []
     ffts = []
 
+    # Opaque painters / FFT: every output cell is an uninterpreted FUNCTION of the contents handed in (all position cells, all
+    # weights, offset, box / all field cells).  Equal inputs give equal outputs by congruence, so "same particles as second
+    # field" needs no bookkeeping -- and an input array that was modified behind the caller's back gives different outputs.
+    def reals(a):
+        return [core.lift(x).as_real() for x in common.cells(a)] if a is not None else []
+
+    def uf(name, args):
+        f = z3.Function(name, *([z3.RealSort()] * len(args)), z3.RealSort())
+        return Sym(f(*args))
+
     def paint_tsc(pos, field, Lbox, weights=None, nthread=-1, offset=0.0, **kw):
-        tag = len(painted)
         painted.append(dict(kind='TSC', pos=pos, w=weights, offset=offset, box=Lbox))
+        args = reals(pos) + reals(weights) + [core.lift(offset).as_real(), core.lift(Lbox).as_real()]
         for idx in real_np.ndindex(*field.shape):
-            real_np.ndarray.__setitem__(field, idx, Sym(c.input(f'paint{tag}[{",".join(map(str, idx))}]', z3.RealSort())))
+            real_np.ndarray.__setitem__(field, idx, uf(f'paintTSC{"w" if weights is not None else "u"}[{",".join(map(str, idx))}]', args))
         return field
 
     def paint_cic(pos, field, Lbox, weights=None):
-        tag = len(painted)
         painted.append(dict(kind='CIC', pos=pos, w=weights, offset=None, box=Lbox))
+        args = reals(pos) + reals(weights) + [core.lift(Lbox).as_real()]
         for idx in real_np.ndindex(*field.shape):
-            real_np.ndarray.__setitem__(field, idx, Sym(c.input(f'paint{tag}[{",".join(map(str, idx))}]', z3.RealSort())))
+            real_np.ndarray.__setitem__(field, idx, uf(f'paintCIC{"w" if weights is not None else "u"}[{",".join(map(str, idx))}]', args))
 
     def rfftn(field, workers=None, **kw):
-        tag = len(ffts)
         n = field.shape[0]
-        out = cmesh(c, f'fft{tag}', (n, n, n // 2 + 1))
+        args = reals(field)
+        out = SArr((n, n, n // 2 + 1), 'c8', fill=None, name=f'fft{len(ffts)}')
+        for idx in real_np.ndindex(n, n, n // 2 + 1):
+            nm = ','.join(map(str, idx))
+            real_np.ndarray.__setitem__(out, idx, core.Cplx(uf(f'fft.re[{nm}]', args), uf(f'fft.im[{nm}]', args)))
         ffts.append(dict(src=[x for x in common.cells(field)], out=out))
         return out
 
@@ -196,6 +209,7 @@ def body_wiring(paste, compensated, interlaced, second, poles, nmesh):
     Np = 3
     pos = common.sym_array('pos', (Np, 3), 'f4')
     w = common.sym_array('w', (Np,), 'f4')
+    pos0, w0 = real_np.ndarray.view(pos, real_np.ndarray).copy(), real_np.ndarray.view(w, real_np.ndarray).copy()
     kw = {}
     if second == 'same':
         kw = dict(pos2=pos, w2=w)
@@ -245,27 +259,18 @@ def body_wiring(paste, compensated, interlaced, second, poles, nmesh):
             'N_mode, the k ranges and the table shape do not depend on the particles', key='wiring:shape', info=dict(columns=res.colnames))
     # (3) cross with the same particles == auto: compare with an auto run on the same opaque paints
     if second == 'same':
-        painted2, ffts2 = list(painted), list(ffts)
         del painted[:], ffts[:]
         with warnings.catch_warnings():
             warnings.simplefilter('ignore')
-            auto = R.calc_power(pos, Lbox, kbins=2, mubins=None, paste=paste, nmesh=nmesh, compensated=compensated, interlaced=interlaced, w=w,
-                                poles=list(poles) or None, nthread=NT, dtype=arrays.T('f4'))
-        # identify the opaque symbols of the second field's paints/FFTs with the first field's (same particles => same paint, same FFT)
-        sub = []
-        for k in range(per):
-            for idx in real_np.ndindex(nmesh, nmesh, nmesh):
-                nm = ','.join(map(str, idx))
-                sub.append((c.inputs[f'paint{k + per}[{nm}]'], c.inputs[f'paint{k}[{nm}]']))
-            for idx in real_np.ndindex(nmesh, nmesh, nmesh // 2 + 1):
-                nm = ','.join(map(str, idx))
-                for part in ('re', 'im'):
-                    sub.append((c.inputs[f'fft{k + per}.{part}[{nm}]'], c.inputs[f'fft{k}.{part}[{nm}]']))
-        # (the auto run re-used the tags 0.. and therefore the very same opaque symbols as the first field)
+            # the reference run gets fresh arrays holding the ORIGINAL cells (a first call that shifted `pos` in place must not
+            # shift the reference as well)
+            auto = R.calc_power(arrays.as_sarr(pos0.copy(), 'f4'), Lbox, kbins=2, mubins=None, paste=paste, nmesh=nmesh, compensated=compensated, interlaced=interlaced,
+                                w=arrays.as_sarr(w0.copy(), 'f4'), poles=list(poles) or None, nthread=NT, dtype=arrays.T('f4'))
         conds = []
         for col in ('power',) + (('poles',) if 'poles' in res.colnames else ()):
             for x, y in zip(real_np.asarray(res[col]).ravel(), real_np.asarray(auto[col]).ravel()):
-                conds.append(z3.substitute(core._b(core.lift(x) == core.lift(y)), *sub))
+                x, y = core.lift(x), core.lift(y)
+                conds.append(z3.BoolVal(True) if x.e.eq(y.e) else core._b(x == y))
         for cd in conds:
             # polynomial identity in the opaque FFT symbols: first by normalisation (sum of monomials), the solver only if that leaves a residue
             if z3.is_eq(cd):
@@ -375,6 +380,11 @@ else:
         try:
             B = ps.calc_power(pos.copy(), 10.0, pos2=pos.copy(), w2=w, **kw)
             if not np.allclose(A['power'], B['power'], rtol=1e-4): bad.append(f'cross with the same particles {{B["power"].tolist()}} != auto {{A["power"].tolist()}}')
+            # ... and with the very same array OBJECT as both fields (what "the same particles" looks like in user code)
+            p1 = pos.copy(); w1 = w.copy(); kw1 = dict(kw, w=w1)
+            C = ps.calc_power(p1, 10.0, pos2=p1, w2=w1, **kw1)
+            if not np.allclose(A['power'], C['power'], rtol=1e-4): bad.append(f'cross with the same array object as both fields {{C["power"].tolist()}} != auto {{A["power"].tolist()}}')
+            if not (np.array_equal(p1, pos) and np.array_equal(w1, w)): bad.append("calc_power modified the caller's position / weight arrays")
         except Exception as ex:
             bad.append(f'cross power with the same particles raised {{type(ex).__name__}}: {{ex}}')
     P = ps.calc_power((pos + 1000.0 * rng.random((200, 3))).astype(np.float32) % 10, 10.0, **kw)
